@@ -68,9 +68,13 @@ package ipa
 //@ ensures forall k int :: 0 <= k && k < 256 ==> result[k] == fr_inv((point - fr_of_int(k)) * Aprime(k)) * Az(point)
 //@ loop 0 invariant 0 <= i && i <= 256 && len(lagrangeEvals) == 256 && fresh(lagrangeEvals)
 //@ loop 0 invariant forall k int :: 0 <= k && k < i ==> lagrangeEvals[k] == (point - fr_of_int(k)) * Aprime(k)
+//@ at call One 0: ghost LE1 := row(lagrangeEvals)
+//@ at call One 0: ghost LEoff := off(lagrangeEvals)
+//@ at call One 0: ghost pt := point
 //@ loop 1 invariant 0 <= i && i <= 256 && len(lagrangeEvals) == 256
-//@ loop 1 invariant totalProd == Az_part(point, i)
-//@ loop 1 invariant forall k int :: 0 <= k && k < 256 ==> lagrangeEvals[k] == (point - fr_of_int(k)) * Aprime(k)
+//@ loop 1 invariant totalProd == Az_part(point, i) && point == pt
+//@ loop 1 invariant row(lagrangeEvals) == LE1 && off(lagrangeEvals) == LEoff
+//@ loop 1 invariant forall k int :: 0 <= k && k < 256 ==> LE1[LEoff + k] == (pt - fr_of_int(k)) * Aprime(k)
 //@ loop 2 invariant 0 <= i && i <= 256 && totalProd == Az(point) && len(lagrangeEvals) == 256 && fresh(lagrangeEvals)
 //@ loop 2 invariant forall k int :: 0 <= k && k < 256 ==> lagrangeEvals[k] == (k < i ? fr_inv((point - fr_of_int(k)) * Aprime(k)) * Az(point) : fr_inv((point - fr_of_int(k)) * Aprime(k)))
 
